@@ -266,7 +266,7 @@ impl Check for C09 {
         if self.known_shapes { "well-formed-known-shapes" } else { "well-formed" }
     }
     fn cases(&self, tier: Tier) -> usize {
-        if self.known_shapes { tier.pick(1_500, 20_000) } else { tier.pick(6_000, 150_000) }
+        if self.known_shapes { tier.pick(5_000, 60_000) } else { tier.pick(40_000, 800_000) }
     }
     fn strategy(&self, _tier: Tier) -> BoxedStrategy<TaskCase> {
         task_strategy(self.known_shapes)
@@ -340,7 +340,7 @@ impl Check for C12 {
         "own-axioms"
     }
     fn cases(&self, tier: Tier) -> usize {
-        tier.pick(5_000, 120_000)
+        tier.pick(40_000, 800_000)
     }
     fn strategy(&self, _tier: Tier) -> BoxedStrategy<OwnCase> {
         (task_strategy(false), g::raw_interp(8, 0, 2, 4))
@@ -592,7 +592,7 @@ impl Check for Preamble {
         4
     }
     fn cases(&self, tier: Tier) -> usize {
-        tier.pick(60, 2_000)
+        tier.pick(300, 6_000)
     }
     fn strategy(&self, _tier: Tier) -> BoxedStrategy<PreambleCase> {
         (
